@@ -20,6 +20,48 @@ LAYER = {"L": "local", "M": "module", "I": "import", "C": "context", "B": "built
 MARK = ["-", "ctx", "page", "assign", "arg", "encl", "loop", "mod", "imp", "oarg", "bltn"]
 
 
+# every kind of scope in which a template can bind a name, and every binding form
+NESTED_ASSIGN = {
+    "assign-in-nested-def": '<%def name="o()"><%def name="d()"><% NAME = 1 %></%def></%def>x',
+    "assign-in-def-in-named-block": '<%block name="b"><%def name="d()"><% NAME = 1 %></%def></%block>x',
+    "assign-in-def-in-anon-block": '<%block><%def name="d()"><% NAME = 1 %></%def></%block>x',
+    "assign-in-doubly-nested-def": '<%def name="o()"><%def name="m()"><%def name="d()"><% NAME = 1 %></%def></%def></%def>x',
+    "import-as-in-nested-def": '<%def name="o()"><%def name="d()"><% import os as NAME %></%def></%def>x',
+    "for-target-in-nested-def": '<%def name="o()"><%def name="d()"><%\nfor NAME in [1]:\n    pass\n%></%def></%def>x',
+    "control-for-in-nested-def": '<%def name="o()"><%def name="d()">\n% for NAME in [1]:\ny\n% endfor\n</%def></%def>x',
+    "assign-in-named-block": '<%block name="b"><% NAME = 1 %></%block>x',
+    "assign-in-anon-block": '<%block><% NAME = 1 %></%block>x',
+    "assign-in-call-body": '<%def name="f()">${caller.body()}</%def><%call expr="f()"><% NAME = 1 %></%call>x',
+    "assign-in-def-in-call-body": '<%def name="f()">${caller.body()}</%def><%call expr="f()"><%def name="d()"><% NAME = 1 %></%def></%call>x',
+}
+
+
+def _toplevel_comp_targets(src):
+    """names that are targets of a comprehension standing outside every function / lambda body of the block"""
+    import ast
+    out = set()
+
+    def walk(n, in_fn):
+        if isinstance(n, (ast.ListComp, ast.SetComp, ast.GeneratorExp, ast.DictComp)) and not in_fn:
+            for g in n.generators:
+                for t in ast.walk(g.target):
+                    if isinstance(t, ast.Name):
+                        out.add(t.id)
+        if isinstance(n, (ast.Lambda, ast.FunctionDef)):
+            for d in n.args.defaults + [d for d in n.args.kw_defaults if d is not None]:
+                walk(d, in_fn)
+            for c in (n.body if isinstance(n.body, list) else [n.body]):
+                walk(c, True)
+            return
+        for c in ast.iter_child_nodes(n):
+            walk(c, in_fn)
+    try:
+        walk(ast.parse(src), False)
+    except SyntaxError:
+        pass
+    return out
+
+
 def build(rng, site, nm, strict):
     """returns (files, render kwargs, layers) where layers = dict of lists of markers (first wins)"""
     binds = set()
@@ -250,12 +292,52 @@ def run(ctx):
             ctx.violation({"template": src, "rendered": out, "expected": want[idx], "data_after": repr(data)}, "context.kwargs must be exactly the render arguments; data must not change",
                           tags=["c04.kwargs"])
 
+    # ---- Python statement forms in a <% %> block, compared with native execution of the same statements --------------------
+    # The statements stand under `if 0:` (nothing runs, the binding rules alone decide); afterwards one name is read.  Natively
+    # (the statements as a function body, the context as its globals) the read gives the context value unless the function's
+    # own scope binds the name, in which case it is unbound; the template must answer the same.
+    from harness import c19 as _c19
+    nblk = 120 if tier == "quick" else 6000
+    blk_out = {}
+    for _ in range(nblk):
+        sts = _c19.gen_stmts(rng, 2)
+        body_src = _c19.stmts_src(sts)
+        block = "if 0:\n" + "\n".join("    " + l for l in body_src.split("\n"))
+        env = {n_: "ctx-" + n_ for n_ in _c19.NAMES}
+        for v in _c19.NAMES:
+            ctx.evaluations += 1
+            ctx.nontrivial.add((body_src, v))
+            g = dict(env)
+            try:
+                exec("def __f():\n" + "\n".join("    " + l for l in block.split("\n")) + "\n    return " + v, g)
+                native = g["__f"]()
+            except NameError:
+                native = "unbound"
+            except SyntaxError:
+                continue
+            tsrc = "<%\n" + block + "\n%>${" + v + "}"
+            try:
+                got_v = Template(tsrc).render(**env)
+            except NameError:
+                got_v = "unbound"
+            except Exception as e:  # noqa
+                got_v = "raised %s: %s" % (type(e).__name__, str(e)[:100])
+            blk_out[native if native == "unbound" else "context"] = blk_out.get(native if native == "unbound" else "context", 0) + 1
+            if got_v != native:
+                tags = ["c04.block-vs-native"]
+                if native != "unbound" and got_v == "unbound" and v in _toplevel_comp_targets(body_src):
+                    tags = ["c04.block-vs-native.toplevel-comp-target"]
+                ctx.violation({"template": tsrc, "name_read": v, "context": env, "template_answers": got_v, "native_execution_answers": native},
+                              "a name read after a <% %> block resolves as it does when the same statements run natively", tags=tags)
+    ctx.generators["blocks_vs_native"] = {"programs": nblk, "names_read_each": len(_c19.NAMES)}
+    ctx.dist["blocks_vs_native_outcomes"] = blk_out
+
     # ---- reserved names ---------------------------------------------------------------------------------------------------
     req3, got3 = [], []
     from mako import codegen
     for name in sorted(codegen.RESERVED_NAMES) + ["ordinary", "self", "caller"]:
         for enable_loop in (True, False):
-            for entry in ["render", "render_unicode", "render_context", "get_def", "assign", "assign-in-def", "for-target"]:
+            for entry in ["render", "render_unicode", "render_context", "get_def", "assign", "assign-in-def", "for-target"] + sorted(NESTED_ASSIGN):
                 ctx.evaluations += 1
                 ctx.nontrivial.add((name, enable_loop, entry))
                 try:
@@ -270,6 +352,8 @@ def run(ctx):
                         Template("<%% %s = 1 %%>x" % name, enable_loop=enable_loop)
                     elif entry == "assign-in-def":
                         Template('<%%def name="d()"><%% %s = 1 %%></%%def>x' % name, enable_loop=enable_loop)
+                    elif entry in NESTED_ASSIGN:
+                        Template(NESTED_ASSIGN[entry].replace("NAME", name), enable_loop=enable_loop)
                     else:
                         Template("%% for %s in [1]:\nx\n%% endfor\n" % name, enable_loop=enable_loop)
                     res = "0"
